@@ -296,9 +296,11 @@ func funcToList(kv KVPair, args []Expression, ctx *ExecuteCtx) (any, error) {
 		return []int64{}, nil
 	}
 
-	// The element type is the narrowest one that holds every argument:
-	// integers, else numbers, else text. Deciding by the first argument
-	// alone turned list('1', 'a') into [1, 0].
+	// The element type follows the type of the arguments: integers, numbers
+	// (when a float is among them) or text. A text argument stays the text it
+	// is, also when it reads as a number: list('007', '1')[0] is '007' and
+	// value in list('1', '2') compares texts. int_list and float_list are
+	// there to read numbers out of texts.
 	const (
 		kindInt = iota
 		kindFloat
@@ -313,11 +315,7 @@ func funcToList(kv KVPair, args []Expression, ctx *ExecuteCtx) (any, error) {
 		}
 		vals[i] = val
 		ekind := kindStr
-		switch eval := val.(type) {
-		case string:
-			ekind = listTextKind(eval)
-		case []byte:
-			ekind = listTextKind(string(eval))
+		switch val.(type) {
 		case int, uint, int32, uint32, int64, uint64:
 			ekind = kindInt
 		case float32, float64:
@@ -346,18 +344,6 @@ func funcToList(kv KVPair, args []Expression, ctx *ExecuteCtx) (any, error) {
 		ret[i] = toFloat(val, 0.0)
 	}
 	return ret, nil
-}
-
-// listTextKind tells what a text element of list() reads as: 0 an integer,
-// 1 a number, 2 plain text.
-func listTextKind(val string) int {
-	if _, err := strconv.ParseInt(val, 10, 64); err == nil {
-		return 0
-	}
-	if _, err := strconv.ParseFloat(val, 64); err == nil {
-		return 1
-	}
-	return 2
 }
 
 func funcLen(kv KVPair, args []Expression, ctx *ExecuteCtx) (any, error) {
